@@ -11,9 +11,12 @@ REGISTRY = {
     "C01": ("vf.props.value", "C01"),
     "C02": ("vf.props.value", "C02"),
     "C11": ("vf.props.tokenizer", None),
+    "C12": ("vf.props.history", None),
     "C13": ("vf.props.clone", None),
     "C14": ("vf.props.treeprops", "C14"),
     "C15": ("vf.props.treeprops", "C15"),
+    "C03": ("vf.props.parser", "C03"),
+    "C10": ("vf.props.parser", "C10"),
     "C06": ("vf.props.rules_struct", "C06"),
     "C07": ("vf.props.rules_struct", "C07"),
 }
